@@ -167,7 +167,10 @@ func TestC13Ed25519Internal(t *testing.T) {
 			desc := fmt.Sprintf("P=%s·G Q=%s·G (%s) k=%s m=%s n=%s (%s)", a.Text(16), b.Text(16), rel, k.Text(16), m.Text(16), n.Text(16), mrel)
 			P, Q := c13Mk(a), c13Mk(b)
 			if c13Enc(P) != c13Want(a) {
-				t.Fatalf("SELFTEST-FAIL constructed point differs from the reference")
+				// c13Mk copies the reference's affine coordinates (z = 1, no library group operation); only
+				// pointR1.toAffine (field inversion and multiplications) lies between them and this comparison:
+				// a conversion / field defect outside C13's group operations, the check cannot proceed
+				t.Fatalf("SELFTEST-FAIL circl misbehaved outside C13: pointR1.toAffine of the affine reference point %s·G gives %s, the reference has %s", a.Text(16), c13Enc(P), c13Want(a))
 			}
 			// double
 			{
